@@ -16,6 +16,7 @@ type GenOpts struct {
 	XTest     bool // allow an external test package
 	Aliases   bool // explicit import aliases in some files
 	Rich      bool // several annotation kinds on the same type
+	Twins     bool // prefer programs with the two same-named packages (and same-named interfaces), all packages importable by all later ones
 }
 
 type pkgSpec struct{ dir, name string }
@@ -115,7 +116,11 @@ func Gen(t *rapid.T, o GenOpts) *Prog {
 	n := rapid.IntRange(o.MinPkgs, o.MaxPkgs).Draw(t, "npkgs")
 	// choose package identities
 	perm := rapid.Permutation(pkgPool).Draw(t, "pkgperm")
-	if n >= 3 && rapid.IntRange(0, 9).Draw(t, "sameNamedPkgs") < 4 {
+	twinPct := 4
+	if o.Twins {
+		twinPct = 8
+	}
+	if n >= 3 && rapid.IntRange(0, 9).Draw(t, "sameNamedPkgs") < twinPct {
 		// two packages that share their declared name
 		var rest []pkgSpec
 		for _, sp := range perm {
@@ -162,7 +167,7 @@ func (g *gen) genPkg(pkg *Pkg, earlier []*Pkg) {
 	defer func() { g.cur, g.curPkg = nil, nil }()
 	// a package that leaves one earlier package alone: it can still reach that
 	// package's types through the API of the ones it does import
-	if len(earlier) >= 2 && g.chance("narrowImports", 35) {
+	if len(earlier) >= 2 && !g.o.Twins && g.chance("narrowImports", 35) {
 		drop := g.pick("dropPkg", len(earlier))
 		kept := append([]*Pkg{}, earlier[:drop]...)
 		earlier = append(kept, earlier[drop+1:]...)
@@ -326,6 +331,7 @@ func (g *gen) genPkg(pkg *Pkg, earlier []*Pkg) {
 	}
 	// ---- methods with annotations (testonly/packageonly) and plain ones
 	var funcs []*FuncDecl
+	recvAlias := map[*TypeDecl]*TypeDecl{}
 	for _, td := range types {
 		if td.Kind == KIface || td.Elem != nil {
 			continue
@@ -333,6 +339,20 @@ func (g *gen) genPkg(pkg *Pkg, earlier []*Pkg) {
 		nm := rapid.IntRange(0, 2).Draw(t, "nmethods")
 		for i := 0; i < nm; i++ {
 			fd := g.genFunc(pkg, td, fmt.Sprintf("M%d", i), types, earlier)
+			// the receiver may be spelled through parentheses or a local alias:
+			// func (r *(T)), func (r (*T)), func (r (T)), func (r *TAl)
+			switch k := g.pick("recvSpelling", 100); {
+			case k < 6:
+				fd.Recv.Ref.Paren = true
+			case k < 10 && fd.Recv.Ref.Ptr:
+				fd.Recv.Ref.ParenAll = true
+			case k < 15:
+				if recvAlias[td] == nil {
+					recvAlias[td] = &TypeDecl{ID: g.p.NewID(), Pkg: pkg, Kind: td.Kind, Name: td.Name + "Al", AliasOf: &TypeRef{Type: td}}
+					decls = g.add(decls, recvAlias[td])
+				}
+				fd.Recv.Ref.Via = recvAlias[td]
+			}
 			funcs = append(funcs, fd)
 			decls = g.add(decls, fd)
 		}
